@@ -645,7 +645,7 @@ class Gen(object):
     self.note('for')
     if env.loop:
       self.note('nested_loop')
-    kinds = ['range', 'range', 'list', 'tuple', 'unpack', 'rangevar']
+    kinds = ['range', 'range', 'list', 'tuple', 'unpack', 'rangevar', 'unpack_star']
     if cfg['iterators'] and not cfg['pure']:
       kinds += ['iter', 'shared_iter', 'enumerate', 'zip']
     k = self.choice(kinds)
@@ -681,6 +681,12 @@ class Gen(object):
           it = 'enumerate([%s])' % ', '.join(e() for _ in range(self.integer(0, 3)))
         else:
           it = 'zip([%s], range(%d))' % (', '.join(e() for _ in range(self.integer(0, 3))), self.integer(0, 3))
+    elif k == 'unpack_star':
+      # starred element in the loop target; the starred name is fresh and never used as an int
+      self.note('for_starred_target')
+      ys = 'js%d' % self.newk()
+      tg = '%s, *%s' % (x, ys) if self.chance(70) else '*%s, %s' % (ys, x)
+      it = '[%s]' % ', '.join('(%s)' % ', '.join([e() for _ in range(self.integer(1, 3))] + ['']) for _ in range(self.integer(0, 3)))
     elif k == 'iter':
       self.note('for_iterator')
       it = 'iter([%s])' % ', '.join(e() for _ in range(self.integer(0, 3)))
@@ -909,7 +915,11 @@ class Gen(object):
         # (no CFG is built for it); decorator expressions are drawn without nested forms
         self.note('excluded:no_lambda_in_nested_decorator')
         lines.append('%s@deco(%s)' % (sp, self.expr(env, 2)))
-      lines.append('%sdef %s(q, r=%s):' % (sp, f, self.expr(env, 1)))
+      sig = self.choice(['q, r=%s', 'q, r=%s', 'q, *, r=%s', 'q, *rest, r=%s', 'q, /, r=%s'] +
+                        (['q, *, s, r=%s', 'q, *rest, s, r=%s, **kw'] if cfg['bare_defs'] else []))
+      if sig != 'q, r=%s':
+        self.note('def_signature:' + sig.replace('=%s', '=..'))
+      lines.append('%sdef %s(%s):' % (sp, f, sig % self.expr(env, 1)))
       inner.bound['r'] = 'int'
     else:
       lines.append('%sdef %s(q):' % (sp, f))
